@@ -489,6 +489,8 @@ func rulesC17(e *Engine, r *Report) {
 				"os.Stat is applied to the link text as written: a relative target is resolved against the process's working directory", 1, facts...)
 		}
 	}
+	// ---------------------------------------------------------------- R17.12
+	e.shareRule(r, "C02", "R02.11", "R17.12", "a changed file is sent again, not deleted: the two places that remove a confirmed source file by path (the confirmation itself, the scan's clean-up of aged confirmed files) first compare the file on disk with the cache entry; a file rewritten after it was sent or during its delete-delay stays for the next scan to queue it as a new version")
 }
 
 // checkNoSharedAppend: a sender-private list that is appended to must not be
